@@ -179,7 +179,11 @@ K("awkward_NumpyArray_reduce_adjust_starts_64",
   ghost={"ghost_nparents": ([], None), "ghost_nstarts": ([], None)},
   requires=["forall(q, 0, outlength, toptr[q] < ghost_nparents)",
             "forall(q, 0, ghost_nparents, 0 <= parents[q] < ghost_nstarts)"],
-  loops={"L0": ["0 <= k", "forall(q, k, outlength, toptr[q] == old(toptr[q]))"]},
+  # C03 (argmin/argmax report a position inside the group): a global position p >= 0 -- position 0 included --
+  # becomes p - start of its group; "no element" (negative) stays as it is
+  loops={"L0": ["0 <= k", "forall(q, k, outlength, toptr[q] == old(toptr[q]))",
+                "forall(q, 0, k, toptr[q] == ite(old(toptr[q]) >= 0, old(toptr[q]) - starts[parents[old(toptr[q])]], old(toptr[q])))"]},
+  ensures_ok=["forall(q, 0, outlength, toptr[q] == ite(old(toptr[q]) >= 0, old(toptr[q]) - starts[parents[old(toptr[q])]], old(toptr[q])))"],
   inout=["toptr"],
   serves=["C03", "C12", "C13"])
 
@@ -188,7 +192,10 @@ K("awkward_NumpyArray_reduce_adjust_starts_shifts_64",
   ghost={"ghost_nparents": ([], None), "ghost_nstarts": ([], None)},
   requires=["forall(q, 0, outlength, toptr[q] < ghost_nparents)",
             "forall(q, 0, ghost_nparents, 0 <= parents[q] < ghost_nstarts)"],
-  loops={"L0": ["0 <= k", "forall(q, k, outlength, toptr[q] == old(toptr[q]))"]},
+  # ... and, when missing values or shorter lists were skipped, moved on by the shift recorded for that element
+  loops={"L0": ["0 <= k", "forall(q, k, outlength, toptr[q] == old(toptr[q]))",
+                "forall(q, 0, k, toptr[q] == ite(old(toptr[q]) >= 0, old(toptr[q]) + shifts[old(toptr[q])] - starts[parents[old(toptr[q])]], old(toptr[q])))"]},
+  ensures_ok=["forall(q, 0, outlength, toptr[q] == ite(old(toptr[q]) >= 0, old(toptr[q]) + shifts[old(toptr[q])] - starts[parents[old(toptr[q])]], old(toptr[q])))"],
   inout=["toptr"],
   serves=["C03", "C12", "C13"])
 
@@ -219,6 +226,13 @@ K("awkward_UnionArray_simplify",
   extents={"innertags": "ghost_ninner", "innerindex": "ghost_ninner"},
   ghost={"ghost_ninner": ([], None)},
   requires=["forall(q, 0, length, 0 <= outerindex[q] < ghost_ninner)"],
+  # C08: flattening a union nested in a union keeps every value: an element that the outer union sends to the nested
+  # union, and the nested union to its content `innerwhich`, gets the tag of the content that now holds those values
+  # (`towhich`) and its old position there moved behind what was already placed (`base`)
+  store_asserts={"totags": ["at == i", "outertags[i] == outerwhich", "innertags[outerindex[i]] == innerwhich",
+                            "implies(0 - 128 <= towhich and towhich < 128, value == towhich)"],
+                 "toindex": ["at == i", "outertags[i] == outerwhich", "innertags[outerindex[i]] == innerwhich",
+                             "value == innerindex[outerindex[i]] + base"]},
   serves=["C08", "C12", "C13"])
 
 K("awkward_UnionArray_simplify_one",
